@@ -173,6 +173,7 @@ func init() {
 	})
 	properties["C05"].Units = append(properties["C05"].Units,
 		l3Unit("numbers", map[string]int{"KINDS": 6, "DEPTH": 0}, "C05.", "number/integer properties: 7 bound shapes x nullable x required x inline/$ref"),
+		l3Unit("numbers/bound-keywords-through-the-parser", map[string]int{"KINDS": 6, "DEPTH": 0, "PARSEDBOUNDS": 1, "NULLABLE": 0, "REF": 0, "MARSHAL": 0}, "C05.", "the four bound keywords as a symbolic SCHEMA DOCUMENT (minimum/maximum absent or a number; exclusiveMinimum/exclusiveMaximum absent, a boolean or a number: all 36 presence/spelling mixtures, values symbolic) parsed by the real Type.UnmarshalJSON, then generator and emitted code on a symbolic document: accepted iff inside the intersection of the bounds AS WRITTEN in the schema document"),
 		l3Unit("numbers-with-defaults", map[string]int{"KINDS": 6, "DEPTH": 0, "DEFAULTS": 1, "NONULL": 1, "NUMSHAPES": 4}, "C05.", "number/integer properties with a default that satisfies their own bounds: absent or null optional values are never bound-checked"),
 		l3Unit("numbers-in-arrays-and-objects", map[string]int{"KINDS": 48, "DEPTH": 1, "ITEMKINDS": 6, "NUMSHAPES": 4}, "C05.", "numbers as array items and as members of a nested object"),
 		l3UnitT("integers/min-sized", map[string]int{"KINDS": 4, "DEPTH": 0, "MINSIZED": 1, "NUMSHAPEMASK": 46, "REF": 0}, map[string]int{"KINDS": 4, "DEPTH": 0, "MINSIZED": 1}, "C05.", "integer properties with --min-sized-ints on and off (the option may narrow the Go type but the emitted bounds must still denote the stated interval)"),
@@ -191,7 +192,7 @@ func init() {
 		Assumptions: []string{"regexp.MatchString(p, s) is an uninterpreted predicate match_p(s) shared by the code and the reference model", "document strings are valid UTF-8"},
 	})
 	properties["C06"].Units = append(properties["C06"].Units,
-		l3Unit("strings", map[string]int{"KINDS": 1, "DEPTH": 0}, "C06.", "string properties: 8 constraint shapes x nullable x required x inline/$ref"),
+		l3Unit("strings", map[string]int{"KINDS": 1, "DEPTH": 0, "PATTEXT": 1}, "C06.", "string properties: 8 constraint shapes x nullable x required x inline/$ref; the pattern is ^a or a text with format verbs (%d, %%) that must reach regexp.MatchString unchanged"),
 		l3Unit("strings-with-an-unmapped-format", map[string]int{"KINDS": 1, "DEPTH": 0, "STRFMT": 1, "STRSHAPES": 3}, "C06.", "constrained strings that also carry a format the generator maps to no library type (email, uuid, hostname): the format is an annotation, the length and pattern rules still hold"),
 		l3Unit("strings-with-defaults", map[string]int{"KINDS": 1, "DEPTH": 0, "DEFAULTS": 1, "NONULL": 1, "STRSHAPES": 8}, "C06.", "string properties with a default that satisfies their own constraints: an absent or null optional string is never checked (the default is, and it is valid)"),
 		l3Unit("strings-in-arrays-and-objects", map[string]int{"KINDS": 48, "DEPTH": 1, "ITEMKINDS": 1, "STRSHAPES": 3}, "C06.", "strings as array items and as members of a nested object"))
